@@ -22,8 +22,8 @@ each end one), `firstHit` (the first prefix of a line that ends in `obj` and par
 The FULL statement is false of the current code: the scan does not know where stream data,
 strings and comments are, so a line inside them that reads `N G obj` is reported as a header and
 — being later in the file — replaces the true one (`C19_witness_false_header_in_stream`,
-known finding C19-F1).  And a line longer than `CARRY_CAP` makes the chunked scan differ from the
-whole-file scan (`C19_witness_chunk_variance`).  Proved instead, unconditionally: the scanner is
+known finding C19-F1).  A header whose keyword lies more than `CARRY_CAP` bytes after its line start
+is missed by the chunked scan (`C19_witness_chunk_long_header`).  Proved instead, unconditionally: the scanner is
 *exactly* "one header per line with a parsing `… obj` prefix" (soundness + completeness + order),
 the chunked scan equals the whole-file scan whenever no line exceeds `CARRY_CAP`, latest (highest
 offset) wins, and nothing after the last object line that contains no `j` byte — every classic
@@ -126,23 +126,40 @@ example : LinesBounded CARRY_CAP [49, 32, 48, 32, 111, 98, 106, 10, 60, 60, 62, 
 example : scanChunked 3 [49, 32, 48, 32, 111, 98, 106, 10, 60, 60, 62, 62] = [⟨1, 0, 0⟩] := by decide
 
 /- FULL: ∀ k f, scanChunked k f = scanFull f   (the doc comment of `scan_object_headers`:
-   "Behaviourally equivalent to a full-buffer scan").  False: -/
+   "Behaviourally equivalent to a full-buffer scan"). -/
 
 /-- a comment line of 1032 bytes `%AAAAAA 7 0 obj␣␣␣…`, chunk size 1032: the carry is cut
-    1024 bytes before the end of the window, which is just before `7 0 obj`; the next window
-    takes that cut for a line start and reports object 7 at offset 8.  The whole-file scan
-    reports nothing (the line starts with `%AAAAAA`). -/
+    1024 bytes before the end of the window, which is just before `7 0 obj`. -/
 def longLine : Bytes :=
   [37, 65, 65, 65, 65, 65, 65, 32, 55, 32, 48, 32, 111, 98, 106] ++ List.replicate 1017 32
 
-theorem C19_witness_chunk_variance :
-    scanChunked 1032 longLine = [⟨7, 0, 8⟩] ∧ scanFull longLine = [] := by
+/-- regression statement (the loop as it was before the `starts_mid_line` repair): the next window
+    took the cut for a line start and reported object 7 at offset 8; the whole-file scan reports
+    nothing (the line starts with `%AAAAAA`). -/
+theorem C19_regression_chunk_variance_old :
+    scanChunkedOld 1032 longLine = [⟨7, 0, 8⟩] ∧ scanFull longLine = [] := by
+  constructor <;> decide +kernel
+
+/-- the repaired loop agrees with the whole-file scan on that input -/
+theorem C19_chunk_repaired_on_witness : scanChunked 1032 longLine = scanFull longLine := by
+  decide +kernel
+
+/-- `1`, 1031 blanks, `0 obj`: a header whose keyword lies more than `CARRY_CAP` bytes after the
+    start of its line -/
+def longHeader : Bytes := [49] ++ List.replicate 1031 32 ++ [48, 32, 111, 98, 106]
+
+/-- what remains of the FULL statement's failure after the repair: a bounded carry cannot hold a
+    header line whose `obj` comes more than `CARRY_CAP` bytes after the line start — the chunked
+    scan misses it, the whole-file scan reports it (hence `LinesBounded` in `C19_chunk_invariance`
+    is weakened only to "no header prefix longer than the cap", not dropped) -/
+theorem C19_witness_chunk_long_header :
+    scanChunked 1032 longHeader = [] ∧ scanFull longHeader = [⟨1, 0, 0⟩] := by
   constructor <;> decide +kernel
 
 theorem C19_witness_chunk_variance' : ¬ (∀ k f, scanChunked k f = scanFull f) := by
   intro h
-  have := h 1032 longLine
-  rw [C19_witness_chunk_variance.1, C19_witness_chunk_variance.2] at this
+  have := h 1032 longHeader
+  rw [C19_witness_chunk_long_header.1, C19_witness_chunk_long_header.2] at this
   cases this
 
 /-! ## 3. latest wins -/
@@ -275,11 +292,39 @@ def textCatalogFile : Bytes :=
    47, 83, 105, 122, 101, 32, 53, 32, 47, 82, 111, 111, 116, 32, 52, 32, 48, 32, 82, 32, 62, 62, 10, 115, 116, 97, 114,
    116, 88, 114, 101, 102, 10, 51, 49, 48, 10, 37, 37, 69, 79, 70, 10]
 
-/-- the catalog search (`find_catalog_by_content`: first object, by number, whose bytes up to the first
-    `endobj` contain `/Type /Catalog`) picks the content stream, not the catalog -/
-theorem C19_witness_catalog_search_text_match :
-    findRoot textCatalogFile (recoveredEntries (scanChunked 65536 textCatalogFile)) = some 3 ∧
+/-- regression statement (the search as it was before the repair: first literal `N 0 obj` anywhere
+    in the window, bytes up to the first `endobj` including stream data): it picked the content
+    stream, not the catalog -/
+theorem C19_regression_catalog_search_text_match_old :
+    findRootOld textCatalogFile (recoveredEntries (scanChunked 65536 textCatalogFile)) = some 3 ∧
     lookup 4 (recoveredEntries (scanChunked 65536 textCatalogFile)) = some (4, 261, 0) := by
   constructor <;> decide +kernel
+
+/-- the repaired search (header anchored at the entry's offset, dictionary part only) finds the
+    catalog -/
+theorem C19_catalog_search_repaired_on_witness :
+    findRoot textCatalogFile (recoveredEntries (scanChunked 65536 textCatalogFile)) = some 4 := by
+  decide +kernel
+
+/-- `read_object_content` is anchored: it answers only when the bytes at the entry's offset, up to
+    the first `obj` keyword, parse as the header of that very object number — never on a header
+    further down the window (`1 0 obj` inside `11 0 obj`) -/
+theorem C19_read_object_anchored (f : Bytes) (n off : Nat) (c : Bytes)
+    (h : readObjectContent f n off = some c) :
+    ∃ k g, findSub kwObj ((f.drop off).take 65536) 0 = some k ∧
+      parseObjHeader (((f.drop off).take 65536).take (k + 3)) = some (n, g) := by
+  unfold readObjectContent at h
+  simp only at h
+  rcases hk : findSub kwObj ((f.drop off).take 65536) 0 with _ | k
+  · simp [hk] at h
+  · simp only [hk] at h
+    rcases hp : parseObjHeader (((f.drop off).take 65536).take (k + 3)) with _ | ⟨m, g⟩
+    · simp [hp] at h
+    · simp only [hp] at h
+      by_cases hm : m = n
+      · exact ⟨k, g, rfl, by rw [← hm]; exact hp⟩
+      · simp [hm] at h
+
+example : (readObjectContent textCatalogFile 4 261).isSome = true := by decide +kernel
 
 end OxiVerif.C19
